@@ -12,7 +12,7 @@ CLAIMED = {
             "DESIGN.md §2 C21"),
     "C22": ("Kani/CBMC bounded model checking of LineIndex per byte-width shape (cadical), native replay of counterexamples",
             "Solver verdict (CBMC+cadical on the compiled MIR of the real LineIndex) that every (line, character) in usize x usize converts "
-            "to nothing / an in-document, on-line, clamped offset, and that offset->position->offset is the identity, for every text of a "
+            "to nothing / an in-document, on-line, clamped offset (with LF, CRLF and lone-CR terminators: within the line's content), and that offset->position->offset is the identity, for every text of a "
             "bounded byte-width shape. Bounded model checking is the right level: the defects live at rare points of a small input space.",
             "Bounds: texts of <= 3 (quick) / <= 4 (thorough) characters, one representative character per UTF-8 width; Kani's std model; "
             "unwinding assertions on. Longer texts and >4 GiB offsets are outside the claim.",
